@@ -139,6 +139,15 @@ impl SegmentLogWriter {
                     format!("Failed to log to file: {}. {error}", self.file_path)
                 })
                 .map_err(|_| IggyError::CannotWriteToFile)?;
+            // tokio hands the write to a blocking thread and returns at once; flush waits for it, so
+            // that the bytes are in the file before the new size is published to readers and the
+            // send is confirmed.
+            file.flush()
+                .await
+                .with_error_context(|error| {
+                    format!("Failed to flush log file: {}. {error}", self.file_path)
+                })
+                .map_err(|_| IggyError::CannotWriteToFile)?;
 
             Ok(())
         } else {
